@@ -1,3 +1,516 @@
-/- Property theorems for C16 — to be filled in. -/
+/-
+  C16 — a stage sees exactly its ancestors' outputs, the nearest ancestor winning.
+
+  Models: `Stab.Merge` (`get_merged_ancestor_outputs`, `_plan_stage`, `reducers.py`, the context part
+  of `reset_stage_for_retry`).  `R a` = requisites of stage `a`, `O a` = its outputs.  Every theorem
+  about the ancestor merge is stated for EVERY linear extension `order` of the ancestor sub-DAG
+  (`LinExt R s order`), which is all the code's Kahn pass over Python sets guarantees.
+  Dicts are compared extensionally (`get?` of every key), as Python compares dicts.
+-/
+import Stab.Lemmas.Reducers
+import Stab.Lemmas.MergeGraph
+
 namespace Stab.Props.C16
+open Stab.Merge
+
+/-! ## ancestors and linear extensions: the executable functions of the driver are the Prop-level notions -/
+
+/-- a graph the driver accepts is topologically numbered -/
+theorem graph_topo (g : Graph) (h : g.topoNumbered = true) : Topo g.R := by
+  intro a b hb
+  unfold Graph.R at hb
+  cases hf : g.find? (·.ref == a) with
+  | none => simp [hf] at hb
+  | some n =>
+    simp only [hf] at hb
+    have hn : n ∈ g := List.mem_of_find?_eq_some hf
+    have hr : (n.ref == a) = true := by simpa using List.find?_some hf
+    simp only [Graph.topoNumbered, List.all_eq_true, decide_eq_true_eq] at h
+    have := h n hn b hb
+    simp only [beq_iff_eq] at hr
+    omega
+
+/-- `ancestors` (the BFS of the code, as a downward scan) = transitive requisites -/
+theorem ancestors_are_transitive_requisites (R : Nat → List Nat) (hT : Topo R) (s a : Nat) :
+    a ∈ ancestors R s ↔ Anc R s a := mem_ancestors R hT s a
+
+/-- a linear extension always exists, so "for every linear extension" below is never vacuous -/
+theorem linear_extension_exists (R : Nat → List Nat) (hT : Topo R) (s : Nat) : ∃ order, LinExt R s order :=
+  ⟨ancestors R s, ancestors_linExt R hT s⟩
+
+/-- the decidable test used by the driver -/
+theorem isLinExt_sound_complete (R : Nat → List Nat) (s : Nat) (order : List Nat) :
+    isLinExt R s order = true ↔ LinExt R s order := isLinExt_iff R s order
+
+/-- the driver's enumeration is the complete set of linear extensions (admissible-value check) -/
+theorem linExts_complete (R : Nat → List Nat) (hT : Topo R) (s : Nat) (order : List Nat) :
+    order ∈ linExts R s ↔ LinExt R s order := mem_linExts R hT s order
+
+/-! ## the ancestor merge (`get_merged_ancestor_outputs`) -/
+
+/-- A key is visible in the merged ancestor outputs iff some transitive ancestor output it. -/
+theorem merged_keys_eq_ancestor_keys (R : Nat → List Nat) (O : Nat → Outs) (s : Nat) (order : List Nat)
+    (h : LinExt R s order) (k : String) :
+    (get? (mergeOrder O order) k).isSome ↔ ∃ a, Anc R s a ∧ ∃ v, (k, v) ∈ O a := by
+  rw [mergeOrder_get?]
+  constructor
+  · intro hs
+    have hne : vals O order k ≠ [] := by
+      intro hnil
+      rw [hnil] at hs
+      simp [foldVals] at hs
+    obtain ⟨v, hv⟩ := List.exists_mem_of_ne_nil _ hne
+    obtain ⟨a, ha, hm⟩ := (mem_vals O order k v).mp hv
+    exact ⟨a, (h.mem a).mp ha, v, hm⟩
+  · rintro ⟨a, ha, v, hm⟩
+    have hv : v ∈ vals O order k := (mem_vals O order k v).mpr ⟨a, (h.mem a).mpr ha, hm⟩
+    cases hf : foldVals none (vals O order k) with
+    | some w => simp
+    | none =>
+      have := ((foldVals_eq_none none _).mp hf).2
+      rw [this] at hv
+      cases hv
+
+/-- The merged value of a key is never invented: it is one ancestor's value, or (list case) built from
+    ancestors' list values only — in particular nothing a non-ancestor output can appear. -/
+theorem merged_value_from_ancestors (R : Nat → List Nat) (O : Nat → Outs) (s : Nat) (order : List Nat)
+    (h : LinExt R s order) (k : String) (w : Value) (hw : get? (mergeOrder O order) k = some w) :
+    (∃ a, Anc R s a ∧ (k, w) ∈ O a)
+    ∨ (∃ l, w = .list l ∧ ∀ x ∈ l, ∃ a, Anc R s a ∧ ∃ l', (k, .list l') ∈ O a ∧ x ∈ l') := by
+  rw [mergeOrder_get?] at hw
+  -- generalise over the prefix already folded
+  have key : ∀ (vs : List Value) (o : Option Value),
+      (∀ v ∈ vs, ∃ a, Anc R s a ∧ (k, v) ∈ O a) →
+      (∀ u, o = some u → (∃ a, Anc R s a ∧ (k, u) ∈ O a)
+          ∨ (∃ l, u = .list l ∧ ∀ x ∈ l, ∃ a, Anc R s a ∧ ∃ l', (k, .list l') ∈ O a ∧ x ∈ l')) →
+      ∀ u, foldVals o vs = some u → (∃ a, Anc R s a ∧ (k, u) ∈ O a)
+          ∨ (∃ l, u = .list l ∧ ∀ x ∈ l, ∃ a, Anc R s a ∧ ∃ l', (k, .list l') ∈ O a ∧ x ∈ l') := by
+    intro vs
+    induction vs with
+    | nil => intro o _ ho u hu; exact ho u (by simpa [foldVals] using hu)
+    | cons v vs ih =>
+      intro o hvs ho u hu
+      have hstep : foldVals o (v :: vs) = foldVals (some (combine o v)) vs := by simp [foldVals]
+      rw [hstep] at hu
+      refine ih (some (combine o v)) (fun v' hv' => hvs v' (List.mem_cons_of_mem _ hv')) ?_ u hu
+      intro u' hu'
+      injection hu' with hu'
+      obtain ⟨a, haA, ham⟩ := hvs v List.mem_cons_self
+      -- either plain overwrite, or list onto list
+      cases o with
+      | none =>
+        have : combine none v = v := by cases v <;> rfl
+        rw [this] at hu'; subst hu'
+        exact Or.inl ⟨a, haA, ham⟩
+      | some old =>
+        cases old with
+        | atom x =>
+          have : combine (some (.atom x)) v = v := by cases v <;> rfl
+          rw [this] at hu'; subst hu'
+          exact Or.inl ⟨a, haA, ham⟩
+        | dict d =>
+          have : combine (some (.dict d)) v = v := by cases v <;> rfl
+          rw [this] at hu'; subst hu'
+          exact Or.inl ⟨a, haA, ham⟩
+        | list e =>
+          cases v with
+          | atom x =>
+            have : combine (some (.list e)) (.atom x) = .atom x := rfl
+            rw [this] at hu'; subst hu'
+            exact Or.inl ⟨a, haA, ham⟩
+          | dict d =>
+            have : combine (some (.list e)) (.dict d) = .dict d := rfl
+            rw [this] at hu'; subst hu'
+            exact Or.inl ⟨a, haA, ham⟩
+          | list n =>
+            have : combine (some (.list e)) (.list n) = .list (appendNew e n) := rfl
+            rw [this] at hu'; subst hu'
+            refine Or.inr ⟨_, rfl, ?_⟩
+            intro x hx
+            obtain ⟨t, ht, _, ht3, _⟩ := appendNew_spec e n
+            rw [ht] at hx
+            rcases List.mem_append.mp hx with hx | hx
+            · rcases ho (.list e) rfl with ⟨a', ha', hm'⟩ | ⟨l, hl, hall⟩
+              · exact ⟨a', ha', e, hm', hx⟩
+              · injection hl with hl
+                subst hl
+                exact hall x hx
+            · exact ⟨a, haA, n, ham, (ht3 x hx).2⟩
+  refine key (vals O order k) none ?_ ?_ w hw
+  · intro v hv
+    obtain ⟨a, ha, hm⟩ := (mem_vals O order k v).mp hv
+    exact ⟨a, (h.mem a).mp ha, hm⟩
+  · intro u hu; cases hu
+
+/-- **Nearest on the path wins.**  `p` is an ancestor that outputs the non-list value `v` for `k`, and
+    every other ancestor that outputs `k` is itself an ancestor of `p` (so `p` is the latest producer on
+    every dependency path).  Then the merged value is `v` — whatever linear extension the code used. -/
+theorem nearest_on_path_wins (R : Nat → List Nat) (O : Nat → Outs) (s : Nat) (order : List Nat)
+    (h : LinExt R s order) (k : String) (p : Nat) (v : Value)
+    (hp : Anc R s p) (hdict : ((O p).map (·.1)).Nodup) (hv : get? (O p) k = some v)
+    (hscalar : v.isList = false)
+    (hnear : ∀ q, Anc R s q → q ≠ p → get? (O q) k ≠ none → Anc R p q) :
+    get? (mergeOrder O order) k = some v := by
+  have hpo : p ∈ order := (h.mem p).mpr hp
+  obtain ⟨l1, l2, e⟩ := List.append_of_mem hpo
+  have hnd := h.nodup
+  rw [e] at hnd
+  -- nothing after `p` produces `k`
+  have hl2 : vals O l2 k = [] := by
+    apply vals_eq_nil_of_no_producer
+    intro q hq
+    by_cases hqk : get? (O q) k = none
+    · exact hqk
+    · exfalso
+      have hqo : q ∈ order := by rw [e]; simp [hq]
+      have hqp : q ≠ p := by
+        rintro rfl
+        have := (List.nodup_append.mp hnd).2.1
+        exact (List.nodup_cons.mp this).1 hq
+      have hanc := hnear q ((h.mem q).mp hqo) hqp hqk
+      have hq1 : q ∈ l1 := h.anc_before hanc l1 l2 e
+      exact absurd rfl ((List.nodup_append.mp hnd).2.2 q hq1 q (List.mem_cons_of_mem _ hq))
+  have hvals : vals O order k = vals O l1 k ++ [v] := by
+    rw [e, vals_append]
+    have : vals O (p :: l2) k = valsOf (O p) k ++ vals O l2 k := by simp [vals]
+    rw [this, hl2, valsOf_of_nodup _ _ hdict, hv]
+    simp
+  rw [mergeOrder_get?, hvals, foldVals_snoc, combine_nonlist _ _ hscalar]
+
+/-- The producer whose value is visible is never shadowed: if all producers of `k` hold non-list values,
+    the merged value belongs to a producer `p` such that no other producer is a descendant of `p` inside the
+    ancestor set.  (This is the set of admissible values when the producers are NOT path-ordered.) -/
+theorem winner_is_maximal (R : Nat → List Nat) (O : Nat → Outs) (s : Nat) (order : List Nat)
+    (h : LinExt R s order) (k : String) (w : Value)
+    (hdict : ∀ a, ((O a).map (·.1)).Nodup)
+    (hscalar : ∀ a v, Anc R s a → get? (O a) k = some v → v.isList = false)
+    (hw : get? (mergeOrder O order) k = some w) :
+    ∃ p, Anc R s p ∧ get? (O p) k = some w ∧ ∀ q, Anc R s q → get? (O q) k ≠ none → ¬ Anc R q p := by
+  -- the last producer in `order`
+  have key : ∀ (l2 l1 : List Nat), order = l1 ++ l2 → vals O l2 k = [] → foldVals none (vals O l1 k) = some w →
+      ∃ p, Anc R s p ∧ get? (O p) k = some w ∧ ∀ q, Anc R s q → get? (O q) k ≠ none → ¬ Anc R q p := by
+    intro l2 l1
+    revert l2
+    induction l1 using snoc_induction with
+    | hnil => intro _ _ _ hf; simp [vals, foldVals] at hf
+    | hsnoc l1 p ih =>
+      intro l2 e hl2 hf
+      have hpo : p ∈ order := by rw [e]; simp
+      by_cases hpk : get? (O p) k = none
+      · -- `p` does not produce `k`: move it to the suffix
+        have hvp : valsOf (O p) k = [] := by rw [valsOf_of_nodup _ _ (hdict p), hpk]; rfl
+        refine ih (p :: l2) (by simp [e]) ?_ ?_
+        · have : vals O (p :: l2) k = valsOf (O p) k ++ vals O l2 k := by simp [vals]
+          rw [this, hvp, hl2]; rfl
+        · rw [vals_append] at hf
+          have : vals O [p] k = valsOf (O p) k := by simp [vals]
+          rw [this, hvp, List.append_nil] at hf
+          exact hf
+      · obtain ⟨v, hv⟩ := Option.ne_none_iff_exists'.mp hpk
+        have hvp : valsOf (O p) k = [v] := by rw [valsOf_of_nodup _ _ (hdict p), hv]; rfl
+        rw [vals_append] at hf
+        have : vals O [p] k = valsOf (O p) k := by simp [vals]
+        rw [this, hvp, foldVals_snoc,
+          combine_nonlist _ _ (hscalar p v ((h.mem p).mp hpo) hv)] at hf
+        injection hf with hf
+        subst hf
+        refine ⟨p, (h.mem p).mp hpo, hv, ?_⟩
+        intro q hq hqk hqp
+        -- `p` precedes `q` in every decomposition around `q`; so `q` lies in `l2`, which has no producer
+        have hqo : q ∈ order := (h.mem q).mpr hq
+        have hnd := h.nodup
+        have hq2 : q ∈ l2 := by
+          rw [e] at hqo
+          rcases List.mem_append.mp hqo with hq1 | hq2
+          · exfalso
+            rcases List.mem_append.mp hq1 with hq1 | hq1
+            · obtain ⟨x1, x2, e5⟩ := List.append_of_mem hq1
+              have e6 : order = x1 ++ q :: (x2 ++ p :: l2) := by simp [e, e5]
+              have hpx : p ∈ x1 := h.anc_before hqp x1 _ e6
+              rw [e6] at hnd
+              exact absurd rfl ((List.nodup_append.mp hnd).2.2 p hpx p (by simp))
+            · simp at hq1
+              subst hq1
+              have e6 : order = l1 ++ q :: l2 := by simp [e]
+              have hpx : q ∈ l1 := h.anc_before hqp l1 l2 e6
+              rw [e6] at hnd
+              exact absurd rfl ((List.nodup_append.mp hnd).2.2 q hpx q (by simp))
+          · exact hq2
+        have : ∀ v', v' ∉ vals O l2 k := by rw [hl2]; simp
+        obtain ⟨vq, hvq⟩ := Option.ne_none_iff_exists'.mp hqk
+        exact this vq ((mem_vals O l2 k vq).mpr ⟨q, hq2, get?_mem _ _ _ hvq⟩)
+  rw [mergeOrder_get?] at hw
+  exact key [] order (by simp) (by simp [vals]) hw
+
+/-- **Lists accumulate without duplicates.**  If every ancestor value of `k` is a list (and there is one),
+    the merged value is `first ++ t` where `first` is the (unchanged) list of the first producer in the order,
+    `t` has no repetition and nothing already in `first`, and the elements are exactly the elements of the
+    ancestors' lists.  (A duplicate inside `first` itself is kept: the code never deduplicates the first list.) -/
+theorem lists_accumulate_without_duplicates (R : Nat → List Nat) (O : Nat → Outs) (s : Nat)
+    (order : List Nat) (h : LinExt R s order) (k : String)
+    (hlist : ∀ a v, Anc R s a → (k, v) ∈ O a → v.isList = true)
+    (hsome : ∃ a, Anc R s a ∧ ∃ v, (k, v) ∈ O a) :
+    ∃ first t, (∃ a, Anc R s a ∧ (k, .list first) ∈ O a)
+      ∧ get? (mergeOrder O order) k = some (.list (first ++ t))
+      ∧ t.Nodup ∧ (∀ y ∈ t, y ∉ first)
+      ∧ ∀ y, y ∈ first ++ t ↔ ∃ a, Anc R s a ∧ ∃ l, (k, .list l) ∈ O a ∧ y ∈ l := by
+  have hall : ∀ v ∈ vals O order k, v.isList = true := by
+    intro v hv
+    obtain ⟨a, ha, hm⟩ := (mem_vals O order k v).mp hv
+    exact hlist a v ((h.mem a).mp ha) hm
+  obtain ⟨ls, hls⟩ := all_lists _ hall
+  obtain ⟨a0, ha0, v0, hm0⟩ := hsome
+  have hv0 : v0 ∈ vals O order k := (mem_vals O order k v0).mpr ⟨a0, (h.mem a0).mpr ha0, hm0⟩
+  cases ls with
+  | nil => rw [hls] at hv0; cases hv0
+  | cons first rest =>
+    obtain ⟨t, ht1, ht2, ht3, ht4⟩ := accum_spec first rest
+    have hmemls : ∀ l, l ∈ first :: rest ↔ ∃ a, Anc R s a ∧ (k, Value.list l) ∈ O a := by
+      intro l
+      have : l ∈ first :: rest ↔ Value.list l ∈ vals O order k := by
+        rw [hls, List.mem_map]
+        constructor
+        · intro hl; exact ⟨l, hl, rfl⟩
+        · rintro ⟨l', hl', he⟩; injection he with he; subst he; exact hl'
+      rw [this, mem_vals]
+      constructor
+      · rintro ⟨a, ha, hm⟩; exact ⟨a, (h.mem a).mp ha, hm⟩
+      · rintro ⟨a, ha, hm⟩; exact ⟨a, (h.mem a).mpr ha, hm⟩
+    refine ⟨first, t, (hmemls first).mp List.mem_cons_self, ?_, ht2, fun y hy => (ht3 y hy).1, ?_⟩
+    · rw [mergeOrder_get?, hls]
+      have : foldVals none ((first :: rest).map Value.list) = foldVals (some (.list first)) (rest.map Value.list) := by
+        simp [foldVals, combine]
+      rw [this, foldVals_lists, ht1]
+    · intro y
+      constructor
+      · intro hy
+        rcases List.mem_append.mp hy with hy | hy
+        · obtain ⟨a, ha, hm⟩ := (hmemls first).mp List.mem_cons_self
+          exact ⟨a, ha, first, hm, hy⟩
+        · obtain ⟨_, l, hl, hyl⟩ := ht3 y hy
+          obtain ⟨a, ha, hm⟩ := (hmemls l).mp (List.mem_cons_of_mem _ hl)
+          exact ⟨a, ha, l, hm, hyl⟩
+      · rintro ⟨a, ha, l, hm, hyl⟩
+        have hl : l ∈ first :: rest := (hmemls l).mpr ⟨a, ha, hm⟩
+        rcases List.mem_cons.mp hl with rfl | hl
+        · exact List.mem_append_left _ hyl
+        · rcases ht4 l hl y hyl with h1 | h1
+          · exact List.mem_append_left _ h1
+          · exact List.mem_append_right _ h1
+
+/-! ## `_plan_stage`: ancestors, then reducers, then the stage's own context -/
+
+/-- **Own context wins**: a key of the stage's own context that no reducer controls keeps its own value,
+    unless both the own value and the merged ancestor value are lists (then they accumulate, see
+    `own_list_accumulates`). -/
+theorem own_context_wins (rk : List String) (anc own : Outs) (k : String) (v : Value)
+    (hown : (keys own).Nodup) (hv : get? own k = some v) (hk : k ∉ rk)
+    (hnl : v.isList = false ∨ ∀ e, get? anc k ≠ some (.list e)) :
+    get? (planCore rk anc own) k = some v := by
+  rw [planCore_get?_of_nodup _ _ _ _ hown, hv]
+  simp only [hk, if_false]
+  rcases hnl with h | h
+  · rw [combine_nonlist _ _ h]
+  · cases hanc : get? anc k with
+    | none => cases v <;> rfl
+    | some w =>
+      cases w with
+      | list e => exact absurd hanc (h e)
+      | atom a => cases v <;> rfl
+      | dict d => cases v <;> rfl
+
+/-- list onto list: the ancestors' list first, then the own items not yet present -/
+theorem own_list_accumulates (rk : List String) (anc own : Outs) (k : String) (e n : List Atom)
+    (hown : (keys own).Nodup) (hv : get? own k = some (.list n)) (hk : k ∉ rk)
+    (hanc : get? anc k = some (.list e)) :
+    get? (planCore rk anc own) k = some (.list (appendNew e n)) := by
+  rw [planCore_get?_of_nodup _ _ _ _ hown, hv, hanc]
+  simp [hk, combine]
+
+/-- a key named by a reducer is never overridden by the stage's own context -/
+theorem reducer_keys_not_overridden (rk : List String) (anc own : Outs) (k : String) (hk : k ∈ rk) :
+    get? (planCore rk anc own) k = get? anc k := by
+  rw [planCore_get?]; simp [hk]
+
+/-- a key the stage does not hold itself is taken from the ancestors -/
+theorem plan_passes_ancestor_value (rk : List String) (anc own : Outs) (k : String)
+    (hv : get? own k = none) : get? (planCore rk anc own) k = get? anc k := by
+  rw [planCore_get?]
+  have : valsOf own k = [] := by
+    simp only [valsOf, List.map_eq_nil_iff, List.filter_eq_nil_iff]
+    intro e he hek
+    simp only [decide_eq_true_eq] at hek
+    exact ((get?_eq_none_iff own k).mp hv) e.2 (by rw [← hek]; exact he)
+  simp [this, foldVals]
+
+/-- **No foreign output.**  Whatever the planned context holds for `k` comes from the stage's own context
+    or from a transitive ancestor: reducers only see the DIRECT upstream branches (`bo ⊆ R s`), which are
+    ancestors, and the ancestor merge only sees ancestors.  A stage that is not an ancestor contributes
+    nothing. -/
+theorem no_foreign_output (R : Nat → List Nat) (O : Nat → Outs) (s : Nat) (order bo : List Nat)
+    (h : LinExt R s order) (hbo : ∀ b ∈ bo, b ∈ R s)
+    (reducers : Dict String) (own res : Outs)
+    (hres : planMerge reducers (mergeOrder O order) (bo.map O) own = .ok res)
+    (k : String) (hk : (get? res k).isSome = true) :
+    (get? own k).isSome = true ∨ ∃ a, Anc R s a ∧ ∃ v, (k, v) ∈ O a := by
+  have hancKey : ∀ k, (get? (mergeOrder O order) k).isSome = true → ∃ a, Anc R s a ∧ ∃ v, (k, v) ∈ O a :=
+    fun k hk => (merged_keys_eq_ancestor_keys R O s order h k).mp hk
+  -- keys of planCore come from anc' or own
+  have hcore : ∀ rk (anc' : Outs), (get? (planCore rk anc' own) k).isSome = true →
+      (get? own k).isSome = true ∨ (get? anc' k).isSome = true := by
+    intro rk anc' hc
+    cases ho : get? own k with
+    | some v => exact Or.inl rfl
+    | none =>
+      rw [plan_passes_ancestor_value rk anc' own k ho] at hc
+      exact Or.inr hc
+  unfold planMerge at hres
+  by_cases hre : reducers.isEmpty = true
+  · simp only [hre, if_true, Except.ok.injEq] at hres
+    subst hres
+    rcases hcore _ _ hk with h1 | h1
+    · exact Or.inl h1
+    · exact Or.inr (hancKey k h1)
+  · simp only [hre, Bool.false_eq_true, if_false] at hres
+    cases hred : applyReducers reducers (bo.map O) with
+    | error x => simp [hred] at hres
+    | ok red =>
+      simp only [hred, Except.ok.injEq] at hres
+      subst hres
+      rcases hcore _ _ hk with h1 | h1
+      · exact Or.inl h1
+      · right
+        rcases update_keys _ _ k h1 with h2 | h2
+        · exact hancKey k h2
+        · rcases applyFrom_keys (bo.map O) reducers [] red hred k h2 with h3 | h3
+          · simp [get?] at h3
+          · obtain ⟨v, hv⟩ := List.exists_mem_of_ne_nil _ h3
+            simp only [branchValues, List.mem_filterMap, List.mem_map] at hv
+            obtain ⟨o, ⟨b, hb, rfl⟩, hov⟩ := hv
+            exact ⟨b, Anc.direct (hbo b hb), v, get?_mem _ _ _ hov⟩
+
+/-! ## reducers and the order of the branches -/
+
+/-- `sum` does not depend on the order of the branches (including whether it raises `TypeError`) -/
+theorem sum_permutation_invariant {vs vs' : List Value} (h : vs.Perm vs') : rSum vs = rSum vs' := rSum_perm h
+/-- `max` (ints or strs, `None` skipped; `ValueError`/`TypeError` outcomes included) -/
+theorem max_permutation_invariant {vs vs' : List Value} (h : vs.Perm vs') : rMax vs = rMax vs' := rMax_perm h
+/-- `min` -/
+theorem min_permutation_invariant {vs vs' : List Value} (h : vs.Perm vs') : rMin vs = rMin vs' := rMin_perm h
+
+/-- `collect`/`append`: the same MULTISET of items whatever the order of the branches -/
+theorem collect_multiset_permutation_invariant {vs vs' : List Value} (h : vs.Perm vs') :
+    (rCollect vs = .error .unsupported ∧ rCollect vs' = .error .unsupported)
+    ∨ ∃ l l', rCollect vs = .ok (.list l) ∧ rCollect vs' = .ok (.list l') ∧ l.Perm l' := by
+  unfold rCollect
+  rw [← h.any_eq]
+  by_cases hd : vs.any Value.isDict = true
+  · left; simp [hd]
+  · right
+    exact ⟨vs.flatMap collectItems, vs'.flatMap collectItems, by simp [hd], by simp [hd], h.flatMap_right _⟩
+
+/-- `extend`: the same multiset of items -/
+theorem extend_multiset_permutation_invariant {vs vs' : List Value} (h : vs.Perm vs') :
+    (rExtend vs = .error .unsupported ∧ rExtend vs' = .error .unsupported)
+    ∨ ∃ l l', rExtend vs = .ok (.list l) ∧ rExtend vs' = .ok (.list l') ∧ l.Perm l' := by
+  unfold rExtend
+  rw [← h.any_eq]
+  by_cases hd : vs.any Value.isDict = true
+  · left; simp [hd]
+  · right
+    exact ⟨vs.flatMap extendItems, vs'.flatMap extendItems, by simp [hd], by simp [hd], h.flatMap_right _⟩
+
+/-- `merge` of dicts with pairwise disjoint keys: the same dict (as a mapping) for every order -/
+theorem merge_disjoint_permutation_invariant {vs vs' : List Value} (h : vs.Perm vs')
+    (hd : vs.Pairwise (fun v w => ∀ k, mergeContrib k v = none ∨ mergeContrib k w = none)) (k : String) :
+    get? (rMergeDict vs) k = get? (rMergeDict vs') k := by
+  rw [rMergeDict_get?, rMergeDict_get?]
+  exact mergeLookup_perm k h (hd.imp (fun hvw => hvw k)) none
+
+/-- **Fan-in with order-insensitive reducers**: `apply_output_reducers` with reducers drawn from
+    `sum`/`max`/`min` gives the same result (or the same error) for every order of the branches. -/
+theorem symmetric_reducers_branch_order_irrelevant (rs : Dict String)
+    (hs : ∀ e ∈ rs, e.2 ∈ symmetricNames) {bs bs' : List Outs} (h : bs.Perm bs') :
+    applyReducers rs bs = applyReducers rs bs' :=
+  applyFrom_perm rs hs h []
+
+/-- … and so does the planned context -/
+theorem plan_branch_order_irrelevant (rs : Dict String) (hs : ∀ e ∈ rs, e.2 ∈ symmetricNames)
+    (anc own : Outs) {bs bs' : List Outs} (h : bs.Perm bs') :
+    planMerge rs anc bs own = planMerge rs anc bs' own := by
+  unfold planMerge
+  rw [symmetric_reducers_branch_order_irrelevant rs hs h]
+
+/-- the remaining reducers DO depend on the branch order: two-element witnesses -/
+theorem first_order_dependent : ∃ vs vs', vs.Perm vs' ∧ rFirst vs ≠ rFirst vs' :=
+  ⟨[.atom (.int 1), .atom (.int 2)], [.atom (.int 2), .atom (.int 1)], List.Perm.swap _ _ _, by simp [rFirst]⟩
+theorem last_order_dependent : ∃ vs vs', vs.Perm vs' ∧ rLast vs ≠ rLast vs' :=
+  ⟨[.atom (.int 1), .atom (.int 2)], [.atom (.int 2), .atom (.int 1)], List.Perm.swap _ _ _, by simp [rLast]⟩
+theorem collect_as_list_order_dependent : ∃ vs vs', vs.Perm vs' ∧ rCollect vs ≠ rCollect vs' :=
+  ⟨[.atom (.int 1), .atom (.int 2)], [.atom (.int 2), .atom (.int 1)], List.Perm.swap _ _ _,
+    by simp [rCollect, collectItems, Value.isDict]⟩
+theorem extend_as_list_order_dependent : ∃ vs vs', vs.Perm vs' ∧ rExtend vs ≠ rExtend vs' :=
+  ⟨[.list [.int 1], .list [.int 2]], [.list [.int 2], .list [.int 1]], List.Perm.swap _ _ _,
+    by simp [rExtend, extendItems, Value.isDict]⟩
+theorem merge_overlapping_order_dependent :
+    ∃ vs vs', vs.Perm vs' ∧ get? (rMergeDict vs) "a" ≠ get? (rMergeDict vs') "a" :=
+  ⟨[.dict [("a", .int 1)], .dict [("a", .int 2)]], [.dict [("a", .int 2)], .dict [("a", .int 1)]],
+    List.Perm.swap _ _ _, by decide⟩
+
+/-! ## jump loops: what a re-armed stage sees (F17) -/
+
+/-- "the value … as produced in the current loop iteration": in every iteration the stage's task is handed
+    the merge of the ancestors' CURRENT outputs (`iters`, reducers applied) with the stage's ORIGINAL own
+    context `own` -/
+def CurrentIteration (var : Variant) : Prop :=
+  ∀ (rk : List String) (own : Outs) (iters : List Outs),
+    (keys own).Nodup → (∀ anc ∈ iters, (keys anc).Nodup) →
+    ∀ k, (loopSeen var rk { ctx := own } iters).map (fun c => get? c k)
+        = iters.map (fun anc => get? (planCore rk anc own) k)
+
+/-- **F17 (the code before the repair).**  `_plan_stage` stores the merged ancestor outputs as the stage's
+    own context and the re-arm keeps it, so on the next iteration "own context wins": with the ancestor
+    producing `k = 1, 2, 3` and `l = [1], [2], [3]`, the stage sees `k = 1, 1, 1` and
+    `l = [1], [2,1], [3,2,1]`. -/
+theorem legacy_planned_context_counterexample : ¬ CurrentIteration .legacy := by
+  intro h
+  have := h [] [] [[("k", .atom (.int 1))], [("k", .atom (.int 2))], [("k", .atom (.int 3))]]
+    (by decide) (by decide) "k"
+  revert this
+  decide
+
+theorem legacy_list_growth_witness :
+    (loopSeen .legacy [] { ctx := [] }
+      [[("l", .list [.int 1])], [("l", .list [.int 2])], [("l", .list [.int 3])]]).map (fun c => get? c "l")
+    = [some (.list [.int 1]), some (.list [.int 2, .int 1]), some (.list [.int 3, .int 2, .int 1])] := by
+  decide
+
+/-- the first iteration (no jump yet) is fine in both variants -/
+theorem first_iteration_is_current (var : Variant) (rk : List String) (own anc : Outs) (rest : List Outs) :
+    (loopSeen var rk { ctx := own } (anc :: rest)).head? = some (planCore rk anc own) := by
+  cases var <;> simp [loopSeen, planCtx]
+
+/-- **With the repair (`_hydrated_keys` / `_hydrated_own_lists` recorded by the planner, dropped / restored
+    by `reset_stage_for_retry`) every iteration sees the current values.** -/
+theorem planned_context_is_current_iteration : CurrentIteration .fixed := by
+  intro rk own iters hown hanc k
+  exact loopSeen_fixed rk own hown iters hanc k { ctx := own } ⟨rfl, rfl, hown, fun _ _ => rfl⟩
+
+/-! ## non-vacuity -/
+
+/-- a diamond `0 → {1, 2} → 3`: both interleavings of the unrelated branches are linear extensions -/
+example : LinExt (fun a => if a = 3 then [1, 2] else if a = 1 ∨ a = 2 then [0] else []) 3 [0, 1, 2]
+    ∧ LinExt (fun a => if a = 3 then [1, 2] else if a = 1 ∨ a = 2 then [0] else []) 3 [0, 2, 1] :=
+  ⟨(isLinExt_iff _ _ _).mp (by decide), (isLinExt_iff _ _ _).mp (by decide)⟩
+
+/-- …and they disagree on a key both branches write, while a path-ordered key is the same -/
+example :
+    let O : Nat → Outs := fun a =>
+      if a = 0 then [("p", .atom (.int 0)), ("u", .atom (.int 0))]
+      else if a = 1 then [("p", .atom (.int 1)), ("u", .atom (.int 1))]
+      else if a = 2 then [("u", .atom (.int 2))] else []
+    get? (mergeOrder O [0, 1, 2]) "u" ≠ get? (mergeOrder O [0, 2, 1]) "u"
+    ∧ get? (mergeOrder O [0, 1, 2]) "p" = get? (mergeOrder O [0, 2, 1]) "p" := by
+  decide
+
 end Stab.Props.C16
